@@ -1,6 +1,7 @@
 //! C10 — numbers.  Drives the REAL pipeline on generated literal / operator programs and prints, per case,
 //! what the real Core IR and the real goast contain.  Streams (second TSV column):
 //!   LIT   `let x[: τ] = <digits><suffix>;`          Core `EPrim` + goast `VarDecl` value + printed text
+//!   NEG   `let x = -<digits><suffix>;`               negation of a literal (the lexer has no negative literals)
 //!   PAT   `match (x: τ) { <digits><suffix> => … }`  goast `switch` case literal
 //!   OP    one operator × type × operand shape        goast operator node, operand kinds/types, printed symbol
 //!   FLT   float literals (validation only)           Core bits vs Rust's correctly rounded parse
@@ -330,6 +331,54 @@ fn lit_case(out: &mut Out, digits: &str, sfx: &str, annot: &str) {
         Outcome::Panic(m) => format!("panic {}", m.replace(['\n', '\t'], " ")),
     };
     out.case("LIT", l(vec![a("lit"), a(digits), a(if sfx.is_empty() { "-" } else { sfx }), a(if annot.is_empty() { "-" } else { annot })]), &res, &src);
+}
+
+// ------------------------------------------------------------------ NEG: `let x = -<digits><suffix>;` (the `-` is the negation operator)
+fn neg_case(out: &mut Out, digits: &str, sfx: &str) {
+    let ty = ty_of_suffix(sfx);
+    let src = format!(
+        "fn main() -> unit {{\n    let x = -{}{};\n    let _ = string_println({}_to_string(x));\n    ()\n}}\n",
+        digits, sfx, ty
+    );
+    let res = match out.compile(&src) {
+        Outcome::Ok(c) => {
+            let mut prims = Vec::new();
+            if let Ok(v) = serde_json::to_value(&c.core) {
+                core_prims(&v, &mut prims);
+            }
+            let mut decls: Vec<String> = Vec::new();
+            if let Some(f) = go_fn(&c.go, "main0") {
+                walk_block(
+                    &f.body,
+                    &mut |s| {
+                        if let Stmt::VarDecl { name, ty, value: Some(Expr::UnaryOp { op, expr, ty: uty }) } = s {
+                            if name.starts_with("x__") {
+                                decls.push(format!("goop={:?} arg={} goty={} declty={}", op, operand(expr), go_ty_name(uty), go_ty_name(ty)));
+                            }
+                        }
+                    },
+                    &mut |_| {},
+                );
+            }
+            let text = c.go.to_pretty(&c.goenv, 120);
+            let txt = text
+                .lines()
+                .find_map(|ln| {
+                    let rest = ln.trim().strip_prefix("var x__")?;
+                    let (lhs, rhs) = rest.split_once(" = ")?;
+                    Some(format!("{}:{}", lhs.split_whitespace().nth(1)?, rhs))
+                })
+                .unwrap_or_else(|| "?".to_string());
+            if prims.len() == 1 && decls.len() == 1 {
+                format!("accept prim={} val={} tast={} {} txt={}", prims[0].0, prims[0].1, prims[0].2, decls[0], txt)
+            } else {
+                format!("accept-unreadable prims={} decls={} txt={}", prims.len(), decls.len(), txt)
+            }
+        }
+        Outcome::Err(stage, msgs) => classify(stage, &msgs),
+        Outcome::Panic(m) => format!("panic {}", m.replace(['\n', '\t'], " ")),
+    };
+    out.case("NEG", l(vec![a("neg"), a(digits), a(if sfx.is_empty() { "-" } else { sfx })]), &res, &src);
 }
 
 // ------------------------------------------------------------------ PAT
@@ -706,6 +755,20 @@ pub fn main(args: &Args) {
     for _ in 0..n_rand {
         let v = rng.next() >> rng.below(64);
         lit_case(&mut out, &v.to_string(), "", "");
+    }
+
+    // ---- NEG: negated literals around the negative end of every type
+    for (_, sfx, signed, bits) in INT_TYS {
+        let max: u128 = if signed { (1u128 << (bits - 1)) - 1 } else { (1u128 << bits) - 1 };
+        for v in [0u128, 1, 7, max - 1, max, max + 1, max + 2] {
+            neg_case(&mut out, &v.to_string(), sfx);
+        }
+    }
+    for v in [0u128, 5, 2147483647, 2147483648] {
+        neg_case(&mut out, &v.to_string(), "");
+    }
+    for v in 120..=130u32 {
+        neg_case(&mut out, &v.to_string(), "i8");
     }
 
     // ---- PAT: literal patterns at every scrutinee type (suffixed matching, suffixed foreign, unsuffixed)
